@@ -5,6 +5,7 @@ import (
 	"fmt"
 
 	"owverif.local/verif/seqx"
+	"owverif.local/verif/tables"
 	"owverif.local/verif/vf"
 )
 
@@ -12,6 +13,8 @@ type job struct {
 	runner seqx.Runner
 	root   []int
 	opt    seqx.Options
+	abi    *tables.Table // C03(b): one model through the C ABI
+	tier   string
 }
 
 type enum struct {
@@ -22,15 +25,26 @@ type enum struct {
 func (e *enum) N() int64 { return int64(len(e.jobs)) }
 func (e *enum) Describe(i int64) interface{} {
 	j := e.jobs[i]
+	if j.abi != nil {
+		return map[string]interface{}{"part": "C ABI", "model": j.abi.Model, "configurations": len(abiConfigs(j.tier))}
+	}
 	return map[string]interface{}{"element_type": j.runner.Type, "backend": j.runner.Backend, "root_shape": j.root, "max_chain_depth": j.opt.MaxDepth,
 		"reshape_transitions": j.opt.Reshape, "write_footprints": j.opt.Writes, "write_pairs": j.opt.WritePairs, "two_array_ops": j.opt.BulkPairs}
 }
 func (e *enum) CrashSig(i int64, tail string) (string, string) {
 	j := e.jobs[i]
+	if j.abi != nil {
+		return "C03/cabi/" + j.abi.Model + "/harness-crash", "the Go-API reference run crashed"
+	}
 	return fmt.Sprintf("%s/crash/%s-backed", e.id, j.runner.Backend), "array exploration crashed the process (unrecovered fault)"
 }
 func (e *enum) Run(i int64, r *vf.Rec) {
 	j := e.jobs[i]
+	if j.abi != nil {
+		runAbiModel(*j.abi, j.tier, r)
+		r.MarkNontrivial()
+		return
+	}
 	st, fails := j.runner.Run(j.root, j.opt)
 	r.Count("states", int64(st.States))
 	r.Count("transitions", int64(st.Transitions))
@@ -94,7 +108,13 @@ func jobs(id, tier string) []job {
 			if tier == "thorough" && id == "C01" && len(p.root) <= 2 && rn.Type == "float64" {
 				o.WritePairs = true
 			}
-			out = append(out, job{rn, p.root, o})
+			out = append(out, job{runner: rn, root: p.root, opt: o})
+		}
+	}
+	if id == "C03" {
+		for _, t := range tables.All() {
+			t := t
+			out = append(out, job{abi: &t, tier: tier})
 		}
 	}
 	return out
